@@ -1177,6 +1177,14 @@ func runC12(o *out, thorough bool, r *rng, _ []string) map[string]interface{} {
 				fs = append(fs, withBytes([]int{3}, damagedResponse(r, id))) // undecodable, with the ID of a live transaction
 			case 4:
 				fs = append(fs, withBytes([]int{3}, damagedResponse(r, 7000+r.intn(100))))
+			case 6:
+				// an indication that carries this live transaction's ID and whose Write fails: nothing about the
+				// transaction changes
+				fs = append(fs, fNums(7, 65535), withBytes([]int{2}, func() []byte {
+					b := stunMsg(r, id, 20)
+					b[0], b[1] = 0x00, 0x11
+					return b
+				}()))
 			case 5:
 				// one datagram: a response for this transaction followed, after its declared length, by a complete
 				// message carrying ANOTHER live transaction's ID: bytes after the declared length are not a message
@@ -1440,6 +1448,9 @@ type raceConn struct {
 	release  chan struct{}
 	idle     chan struct{}
 	mutated  bool // the slice given to a held Write changed while the Write was in progress
+	holdSucceeds bool     // the held Write reports success when released
+	short        bool     // every Write reports half of the bytes written and no error
+	log          [][]byte // with short: every Write's bytes
 }
 
 func (c *raceConn) Read(p []byte) (int, error) {
@@ -1467,7 +1478,14 @@ func (c *raceConn) Write(p []byte) (int, error) {
 	if hold {
 		c.holdOn = false
 	}
+	short, holdSucceeds := c.short, c.holdSucceeds
+	if short {
+		c.log = append(c.log, append([]byte(nil), p...))
+	}
 	c.mu.Unlock()
+	if short {
+		return len(p) / 2, nil
+	}
 	if hold {
 		snap := append([]byte(nil), p...)
 		c.held <- struct{}{}
@@ -1476,6 +1494,9 @@ func (c *raceConn) Write(p []byte) (int, error) {
 			c.mu.Lock()
 			c.mutated = true
 			c.mu.Unlock()
+		}
+		if holdSucceeds {
+			return len(p), nil
 		}
 		return 0, errScriptedWrite
 	}
@@ -1791,6 +1812,10 @@ func defaultCollectorScenarios(o *out, r *rng, n int) {
 	}
 }
 
+func startTID2(c *stun.Client, tid [12]byte, raw []byte) error {
+	return c.Start(&stun.Message{TransactionID: tid, Raw: raw}, func(stun.Event) {})
+}
+
 // moreClientScenarios (oracles in Go, no model): interleavings and API uses that the scripted histories cannot
 // express.
 func moreClientScenarios(o *out, r *rng) {
@@ -2029,6 +2054,161 @@ func moreClientScenarios(o *out, r *rng) {
 		}
 		_ = e.c.Close()
 		o.count("response-during-the-first-write")
+	}
+	// (4e) the response is read and processed while Start's own Write is still in progress, and that Write then
+	// SUCCEEDS (a synchronous in-process transport): the response reaches the transaction's handler, not the
+	// fallback handler, and no timeout follows
+	for i := 0; i < 10; i++ {
+		fallback := 0
+		e := mk(false, stun.WithHandler(func(stun.Event) { fallback++ }))
+		if e == nil {
+			continue
+		}
+		idA := 7900 + i
+		e.conn.mu.Lock()
+		e.conn.holdTID, e.conn.holdOn, e.conn.holdFirst, e.conn.holdSucceeds = clientTID(idA), true, true, true
+		e.conn.mu.Unlock()
+		var evs []error
+		var gotMsg []bool
+		startDone := make(chan error, 1)
+		raw := stunMsg(r, 1, 20)
+		tidA := clientTID(idA)
+		copy(raw[8:20], tidA[:])
+		go func() {
+			startDone <- e.c.Start(&stun.Message{TransactionID: tidA, Raw: raw}, func(ev stun.Event) {
+				e.mu.Lock()
+				evs = append(evs, ev.Error)
+				gotMsg = append(gotMsg, ev.Message != nil)
+				e.mu.Unlock()
+			})
+		}()
+		select {
+		case <-e.conn.held:
+		case <-time.After(2 * time.Second):
+		}
+		e.conn.rd <- response(r, idA, 0)
+		idle(e)
+		close(e.conn.release)
+		var serr error
+		select {
+		case serr = <-startDone:
+		case <-time.After(2 * time.Second):
+		}
+		now := agentBase
+		for k := 1; k <= 9; k++ {
+			now = now.Add(time.Duration(100*k + 1))
+			e.clock.set(now)
+			e.coll.f(now)
+		}
+		_ = e.c.Close()
+		e.mu.Lock()
+		if serr != nil || len(evs) != 1 || evs[0] != nil || !gotMsg[0] || fallback != 0 {
+			d := fmt.Sprintf("x response-during-a-first-write-that-succeeds #%d: Start returned %v, handler events %v, fallback handler called %d times", i, serr, evs, fallback)
+			o.failFor("C12", "response-missed-its-transaction", d)
+			o.failFor("C10", "handler-not-invoked-exactly-once", d)
+		}
+		e.mu.Unlock()
+		o.count("response-during-a-first-write-that-succeeds")
+	}
+	// (4f) Do: while its callback is still running, the next datagram is already waiting behind the response;
+	// the callback sees its response until it returns
+	for i := 0; i < 10; i++ {
+		e := mk(false)
+		if e == nil {
+			continue
+		}
+		idA := 8000 + i
+		tidA := clientTID(idA)
+		raw := stunMsg(r, 1, 20)
+		copy(raw[8:20], tidA[:])
+		resp := response(r, idA, 8)
+		next := response(r, 8100+i, 40)
+		if i%2 == 1 {
+			next = append(header(0x0011, 12, r.bytes(12)), r.tlv(0x8030, r.bytes(8), 8)...)
+		}
+		bad := ""
+		doDone := make(chan error, 1)
+		go func() {
+			doDone <- e.c.Do(&stun.Message{TransactionID: tidA, Raw: raw}, func(ev stun.Event) {
+				if ev.Error != nil || ev.Message == nil {
+					bad = fmt.Sprintf("event %v", ev.Error)
+					return
+				}
+				go func() {
+					select {
+					case e.conn.rd <- next:
+					case <-time.After(time.Second):
+					}
+				}()
+				for k := 0; k < 20 && bad == ""; k++ {
+					time.Sleep(time.Millisecond)
+					if !bytes.Equal(ev.Message.Raw, resp) || ev.Message.TransactionID != tidA || ev.TransactionID != tidA {
+						bad = fmt.Sprintf("after %d ms the callback's message is %s (TransactionID %x), the response was %s", k+1, fHex(ev.Message.Raw), ev.Message.TransactionID, fHex(resp))
+					}
+				}
+			})
+		}()
+		time.Sleep(2 * time.Millisecond)
+		select {
+		case e.conn.rd <- resp:
+		case <-time.After(2 * time.Second):
+		}
+		var derr error
+		select {
+		case derr = <-doDone:
+		case <-time.After(3 * time.Second):
+			bad = "Do did not return"
+		}
+		if bad != "" || derr != nil {
+			d := fmt.Sprintf("x datagram-right-behind-the-response-of-Do #%d: %s (Do returned %v)", i, bad, derr)
+			o.failFor("C12", "callback-sees-another-datagram", d)
+			o.failFor("C10", "handler-not-invoked-exactly-once", d)
+		}
+		time.Sleep(2 * time.Millisecond)
+		_ = e.c.Close()
+		o.count("datagram-right-behind-the-response-of-Do")
+	}
+	// (4g) a connection that reports short writes without an error (n < len): every Write the client makes is
+	// still the whole request, and there are at most 1 + 7 of them
+	for i := 0; i < 6; i++ {
+		e := mk(false)
+		if e == nil {
+			continue
+		}
+		e.conn.mu.Lock()
+		e.conn.short = true
+		e.conn.mu.Unlock()
+		idA := 8200 + i
+		tidA := clientTID(idA)
+		raw := stunMsg(r, 1, 20+8*i)
+		copy(raw[8:20], tidA[:])
+		want := append([]byte(nil), raw...)
+		_ = startTID2(e.c, tidA, raw)
+		now := agentBase
+		for k := 1; k <= 3+2*i; k++ {
+			now = now.Add(time.Duration(100*k + 1))
+			e.clock.set(now)
+			e.coll.f(now)
+		}
+		_ = e.c.Close()
+		e.conn.mu.Lock()
+		log := e.conn.log
+		e.conn.mu.Unlock()
+		odd := ""
+		for k, w := range log {
+			if !bytes.Equal(w, want) {
+				odd = fmt.Sprintf("write #%d is %s", k+1, fHex(w))
+				break
+			}
+		}
+		if len(log) > 8 {
+			odd = fmt.Sprintf("%d writes", len(log))
+		}
+		if odd != "" {
+			d := fmt.Sprintf("x short-writing-connection #%d request %s: %s", i, fHex(want), odd)
+			o.failFor("C11", "retransmission-differs-from-request", d)
+		}
+		o.count("short-writing-connection")
 	}
 	// (4d) the response and the final timeout of one transaction released at the same instant (reader and
 	// collector goroutines): the handler runs once, and afterwards 640 fresh transactions each get their own event
